@@ -47,7 +47,7 @@ import (
 
 func init() {
 	c26ChildMode()
-	register(&Prop{ID: "C26", Module: "V.C26.Check", Gen: c26Gen, Quick: 30, Thorough: 240, Shard: 20})
+	register(&Prop{ID: "C26", Module: "V.C26.Check", Gen: c26Gen, Quick: 14, Thorough: 240, Shard: 20})
 }
 
 // ---------------------------------------------------------------- plugin child mode
